@@ -87,14 +87,14 @@ Example C12_uniform_witness :
   Some [(1%nat, 4, 21, 5); (0%nat, 0, 17, 5)].
 Proof. vm_compute. reflexivity. Qed.
 
-(* Order from spacing, for EVERY history of the continuous belt store, whatever items are interrupted one by one (the shape of
+(* Order from spacing, for EVERY history of either belt store (slotted or continuous), whatever items are interrupted one by one (the shape of
    history an accumulating conveyor produces): if, at the instant an item is offered, no live item on the belt is closer than one
    slot to an item that entered before it -- C13's "never overlapping", which the check's acc-overlap / acc-exit-shared clauses test
    on every explored run --, then the item offered is the oldest one on the belt.  So on accumulating belts a violation of the
    order needs a violation of the spacing. *)
 Theorem C12_fifo_when_spaced :
-  forall c u D acc ops b i b' g, 0 < u <= D ->
-    TBelt.brun (TBelt.binit false c u D acc) ops = Some b ->
+  forall sl c u D acc ops b i b' g, 0 < u <= D ->
+    TBelt.brun (TBelt.binit sl c u D acc) ops = Some b ->
     (forall x, In x (TBelt.moving b) -> TBelt.dead x = false) ->
     Sorted.StronglySorted (TBeltOrder.ahead (TBelt.bu b) (TBelt.bclock b)) (TBelt.moving b) ->
     TBelt.bstep b (TBelt.BReady i) = Some (b', g) ->
